@@ -25,11 +25,16 @@
                                   whose namespace is the default namespace)
     C09_node_name_ref             node_name_ref reports the node's own name with name_ref's prefix
     C09_inherited_sound           inherited_prefixes ⊆ bindings in scope at the parent
+    C09_unresolved_recursive      unresolved_namespaces = a recursive function of the declarations inside the
+                                  subtree only (name stack starts empty): per element, the namespaces of its
+                                  name and attribute names to which no prefix at all is bound
+    C09_unresolved_reports_no_namespace / _xml_namespace   closed witnesses of the two defects
     C09_stack_invariant           FullnameSerializer: top frame = nearest-declaration bindings of the
                                   frames pushed (unique prefixes per element)
 -/
 import XotModel.Lemmas.Scope
 import XotModel.Lemmas.ScopeStack
+import XotModel.Lemmas.ScopeWalk
 
 namespace XotModel.Props
 open XotModel
@@ -292,6 +297,25 @@ theorem C09_inherited_sound (env : Env) (t : Tree) (path : Path) (l : List (Nat 
       | some l' =>
         simp only [hn, Option.getD_some] at hm
         exact ((C09_in_scope t _ l' hn).1 p ns).1 hm.1
+
+/-- `unresolved_namespaces(node)` depends on the subtree only and is the recursive function
+    `unresolvedRec` started from an EMPTY frame: the edge loop, the push-if-non-empty /
+    pop-if-had-declarations discipline are discharged. -/
+theorem C09_unresolved_recursive (env : Env) (t : Tree) (path : Path) :
+    unresolvedNamespaces env t path = (t.at? path).map (unresolvedRec env []) := by
+  unfold unresolvedNamespaces
+  cases t.at? path <;> simp [unresolvedNamespacesSub_eq]
+
+/-- Defect: `<a/>` with `a` in no namespace: the no-namespace id is reported as unresolved. -/
+theorem C09_unresolved_reports_no_namespace :
+    unresolvedNamespaces { names := [(['a'], 0)] } (.node (.element 0) []) [] = some [0] := by decide
+
+/-- Defect: `<a xmlns:p="A" xml:lang=""/>` with `a` in `A`: the XML namespace is reported, because
+    the name stack starts without the base `xml` binding. -/
+theorem C09_unresolved_reports_xml_namespace :
+    unresolvedNamespaces { names := [(['a'], 2), (['l','a','n','g'], 1)] }
+      (.node (.element 0) [.node (.namespace 2 2) [], .node (.attribute 1 []) []]) [] = some [1] := by
+  decide
 
 /-- The name stack of the serialisers (`FullnameSerializer`): after pushing the declarations of
     the elements `frames` (innermost first, unique prefixes per element) the top frame holds
